@@ -56,7 +56,7 @@ import numpy as np
 from runner import Infra
 
 ID = "C16"
-LEAN_MODULES = ["PyYetiVerif.Props.C16", "PyYetiVerif.Props.C16Full", "PyYetiVerif.Props.C16Pipe",
+LEAN_MODULES = ["PyYetiVerif.Props.C16", "PyYetiVerif.Props.C16Full", "PyYetiVerif.Props.C16FullRoutine", "PyYetiVerif.Props.C16Pipe",
                 "PyYetiVerif.Props.C16Psd", "PyYetiVerif.Audit.C16"]
 AUDIT_FILE = "PyYetiVerif/Audit/C16.lean"
 THEOREMS = [
@@ -68,6 +68,7 @@ THEOREMS = [
         "ext_is_fold_absmax_onecol onecol_broadcast_counterexample uf_split uf_unit uf_scaling "
         "cache_transparent "
         "uf_split_full uf_split_full_routine uf_scaling_full uf_unit_full cache_transparent_full cache_transparent_blocks "
+        "uf_scaling_full_routine uf_unit_full_routine "
         "frf_recovery_is_abs_extreme merge_of_disjoint_case_sets_is_one_pass merge_refuses_duplicates "
         "store_refuses_duplicates calc_ext_is_fold_max stat_ext_sanity "
         "psd_recovery_is_sum_over_forces psd_row_is_sum_over_forces rms_is_trapz_sqrt peak_is_factor_times_rms "
@@ -107,20 +108,23 @@ ASSUMPTIONS = [
     "calc_stat_ext: at least two cases (ddof=1)",
 ]
 PARTIAL = (
-    "full-matrix apply_uf: the theorems are about the partition (block) arithmetic with the factorisation as data; the "
-    "extraction of the partitions (flippv / np.ix_) and the scatter into n rows are executable model code tied by the uf-full "
-    "stream but have no theorem of their own; delete_extreme (recursion over nested results) is covered by the form-twice "
-    "check and the oracle only; calc_stat_ext has a model, a numeric stream and only a sanity theorem (k = 0, equal cases); the SRS of the response PSD "
-    "(srs.vrs, dosrs=True in psd_data_recovery) and solvepsd(use_apply_uf=True) are not driven"
+    "full-matrix apply_uf: uf_scaling_full / uf_unit_full are about the partition (block) arithmetic with the factorisation as "
+    "data; the whole routine including the partition layer (flippv / np.ix_ extraction, in-place scalings, scatter into n rows) "
+    "is proved for rfmodes = None and any nrb < n (uf_*_full_routine); WITH residual-flexibility modes the extraction and scatter "
+    "are executable model code tied by the uf-full stream but have no theorem of their own; delete_extreme (recursion over "
+    "nested results) is covered by the form-twice check and the oracle only; calc_stat_ext has a model, a numeric stream and "
+    "only a sanity theorem (k = 0, equal cases); the SRS of the response PSD (srs.vrs, dosrs=True in psd_data_recovery) and "
+    "solvepsd(use_apply_uf=True) are not driven"
 )
 MANIFEST = {
     "level_text": "proof",
     "level_note": "Lean theorems about the exact per-row model of extrema/maxmin/envelopes/per-case records, the time, frf and "
                   "PSD recovery pipelines (PSD = sum over forces, rms = sqrt of the trapezoid area, peaks mirrored), merge / "
                   "_store_maxmin refusals, calc_ext, and apply_uf with its explicit cache for vector and full modal matrices "
-                  "(full: block arithmetic with the stiffness factorisation as data, Kee * KeeInv = 1); tie by exact / numeric "
-                  "correspondence on the real code; partition extraction of the full path, calc_stat_ext and delete_extreme "
-                  "are tied / measured only",
+                  "(full: block arithmetic with the stiffness factorisation as data, Kee * KeeInv = 1, and the whole routine "
+                  "without residual-flexibility modes); tie by exact / numeric correspondence on the real code; the partition "
+                  "extraction of the full path with residual-flexibility modes, calc_stat_ext and delete_extreme are tied / "
+                  "measured only",
     "technique": "Lean 4 proof + differential correspondence + model-free oracle",
 }
 
